@@ -417,7 +417,7 @@ class Discharger:
     def discharge(self, f, b, t, kind, what):
         for rule in (self.d_arity, self.d_arity_user, self.d_dominating_test, self.d_checked_key, self.d_nonempty, self.d_container_variant, self.d_variant_runs,
                      self.d_table, self.d_counter, self.d_total_cast, self.d_const_index, self.d_front_insert, self.d_front_remove, self.d_bounds, self.d_cell_momentary, self.d_borrow, self.d_known_arith,
-                     self.d_const_input, self.d_div_guarded, self.d_zero_checked):
+                     self.d_const_input, self.d_div_guarded, self.d_zero_checked, self.d_variant_runs_callers):
             r = rule(f, b, t, kind, what)
             if r is not None:
                 return r
@@ -491,6 +491,72 @@ class Discharger:
                 return None
         return (True, "D-variant-runs", "evaluated for every combination of the variants of its enum arguments (%d), the function never "
                 "reaches a failing unwrap" % n)
+
+    def _variant_choices(self, g):
+        """abstract arguments for every combination of the variants of g's (1..2, enum) parameters, or None"""
+        from . import machine, absint
+        import itertools
+        if g.arg_count == 0 or g.arg_count > 2:
+            return None
+        choices = []
+        for i in range(1, g.arg_count + 1):
+            ty = (g.local_ty(i) or "").replace("&mut ", "").replace("&", "").strip()
+            tuple_of = None
+            if ty.startswith("(") and ty.endswith(")"):
+                parts = [x.strip() for x in ty[1:-1].split(", ")]
+                if len(parts) == 2 and parts[0] == parts[1]:
+                    tuple_of, ty = 2, parts[0]            # a pair of the same enum, e.g. (Number, Number)
+            base = mir.norm(ty).split("<")[0]
+            try:
+                vs = self.fb.variants(base)
+            except Exception:
+                return None
+            if not vs or len(vs) > 8:
+                return None
+            adt = self.fb.adt(base)
+
+            def mk(vi, vn, tag):
+                nf = len(adt["variants"][vi]["fields"])
+                e = absint.Enum(vi, [machine.Val("payload-%s-%s-%d" % (vn, tag, k)) if hasattr(machine, "Val") else object() for k in range(nf)])
+                e.name, e.adt = vn, base
+                return e
+            if tuple_of:
+                opts = [[mk(vi, vn, "l"), mk(vj, wn, "r")] for vi, vn in vs for vj, wn in vs]
+            else:
+                opts = [mk(vi, vn, "a%d" % i) for vi, vn in vs]
+            choices.append(opts)
+        combos = list(itertools.product(*choices))
+        return combos if len(combos) <= 81 else None
+
+    def d_variant_runs_callers(self, f, b, t, kind, what):
+        """a panic site (`unreachable!()`, an `unwrap`) in a private function all of whose callers take enums of the crate: every
+        caller is evaluated abstractly for every combination of the variants of its arguments; if every run completes and none
+        reaches a panic or this function's diverging arm, the callers never hand this function the variant that arm is for"""
+        if kind not in ("panic", "unwrap") or "{closure" in f.name or f.vis == "Public":
+            return None
+        from . import machine
+        callers_ = {c_.split("::{closure")[0] for c_ in self.fb.callers("lib").get(f.name, ())} - {f.name}
+        if not callers_ or len(callers_) > 3:
+            return None
+        total = 0
+        for cn in sorted(callers_):
+            g = self.fb.by_path(cn)
+            if g is None:
+                return None
+            combos = self._variant_choices(g)
+            if combos is None:
+                return None
+            for combo in combos:
+                total += 1
+                mc = machine.Machine(self.fb, max_visits=6, budget=400)
+                try:
+                    mc.run(g, list(combo))
+                except Exception:
+                    return None
+                if any(e[0] == "panic" for e in mc.events) or any(e[0] == "diverge" and e[1] == f.name for e in mc.events):
+                    return None
+        return (True, "D-variant-runs", "every caller (%s), evaluated for every combination of the variants of its enum arguments (%d runs), "
+                "completes without reaching this site" % (", ".join(sorted(short(c_) for c_ in callers_)), total))
 
     # -------------------------------------------------------------- D-container-variant
     def d_container_variant(self, f, b, t, kind, what):
@@ -1043,12 +1109,17 @@ class Discharger:
         if not src or not callee_matches(src[1], "num_traits::NumCast::from", "NumCast::from"):
             return None
         frm = " ".join(src[1].get("argtys", []))
-        if f.name in ("values::upcast_oprands", "values::Number::as_real") and "i32" in frm:
+        gens_ = [str(x) for x in ((src[1].get("fn") or {}).get("generics") or []) if not str(x).startswith("'")]
+        # (the destination is the crate's real-number parameter — or a float type — and the source a primitive integer: wherever
+        # the conversion is written)
+        to_real = bool(gens_) and (gens_[0] in ("f32", "f64") or (len(gens_[0]) <= 2 and gens_[0][:1].isupper()))
+        int_src = frm.replace("&", "").strip() in ("i8", "i16", "i32", "i64", "u8", "u16", "u32", "u64", "usize", "isize")
+        if (f.name in ("values::upcast_oprands", "values::Number::as_real") and "i32" in frm) or (to_real and int_src):
             self.ctx.assume("the real type is a binary float (f32 in the product): NumCast::from::<i32> is total for it")
             inst = self._real_instantiations()
             if inst - {"f32", "f64"}:
                 return (False, "D-total-cast", "Interpreter is instantiated with %s, for which the i32 conversion is not known to be total" % sorted(inst))
-            return (True, "D-total-cast", "i32 -> float conversion is total (instantiations: %s)" % sorted(inst))
+            return (True, "D-total-cast", "integer -> float conversion is total (instantiations: %s)" % sorted(inst))
         return None
 
     def _real_instantiations(self):
